@@ -56,6 +56,11 @@ def lru_stems_from_parsed_url(parsed_url, suffix_aware=True):
 
         else:
             domain, suffix = split_result
+
+            # NOTE: split_suffix drops trailing dots, that must survive
+            for _ in range(len(netloc[0]) - len(netloc[0].rstrip("."))):
+                lru.append("h:")
+
             lru.append("h:" + suffix)
 
             if domain:
